@@ -24,7 +24,7 @@ CHECKS = {
          "Every name x every prefix spelling, every 2-name concatenation, short 3-name concatenations and all unit expressions of <=3 (4) items through both entry points; every acceptance of a word (by the query path, by str::parse::<Compound>) must mean one of its valid segmentations over the independent table (scale in the prefixes or in the number), bare documented names their own (standard) meaning; every documented unit under the powers 1,-1,2,-2,3 is converted to its dimensions spelled in base units (exact scale^p), which exercises the tool's own per-unit expansion.",
          "Independent table; nine recorded findings (logos lexer drops characters; three test-pinned definitions) are listed in known_findings.txt.", "3 C05"),
  "C06": ("exploration", E1 + ": operator sequences x bracketings x blank layouts vs the documented precedence table",
-         "All operator sequences up to length 5 over + - * / ^ with every bracketing (Catalan), minimal and full parentheses, redundant parentheses, function-argument position (incl. a call as the digits argument), `to` chains whose root cast must be expressed in the target unit, every sequence of up to 3 operators over operands that carry a unit (a number with its unit is one value), and blank layouts (all combinations of homogeneous gaps for <=2 operators, uniform + 1/2-slot deviations beyond, deviations including gaps that mix spaces and tabs) are evaluated and compared with the reference evaluation of the tree the documented grammar prescribes.",
+         "All operator sequences up to length 5 over + - * / ^ with every bracketing (Catalan), minimal and full parentheses, redundant parentheses, function-argument position (incl. a call as the digits argument), `to` chains whose root cast must be expressed in the target unit, every sequence of up to 3 operators over operands that carry a unit (a number with its unit is one value), two or three unit words after a number in every blank layout, and blank layouts (all combinations of homogeneous gaps for <=2 operators, uniform + 1/2-slot deviations beyond, deviations including gaps that mix spaces and tabs) are evaluated and compared with the reference evaluation of the tree the documented grammar prescribes.",
          "Trees outside the statement's domain (non-integer or >1000 exponents) are counted, not judged; + - and `to` keep >=1 blank as the statement says.", "3 C06"),
  "C07": ("exploration", E1 + ": the literal grammar up to length 7 plus a size ladder vs an own decimal reader",
          "Every literal of the grammar up to length 7 over a reduced digit alphabet ({0,1,9}; thorough {0,1,5,9}), all ten digits to length 4 (thorough 5), plus 20..300-digit ladder literals, read by both the library parser and the query path and compared with an independent reader.",
@@ -39,7 +39,7 @@ CHECKS = {
          "12 magnitudes x 36 scale-spelling pairs (thorough: also every multiple of 1/8 from -500 to 1000 x the nine scale pairs), all chains up to length 4 (thorough 5), every ordered pair of 21 prefixed scale words (m k n G milli kilo on K, degC, degF) x 5 magnitudes and chains through a prefixed scale, and several casts in one query, sums and differences of two temperatures over all 36 spelling pairs, each also converted afterwards to every scale (with and without parentheses), and every placement of a scale that is not alone with power one (powers, products, quotients) - the latter must be refused or treated as an interval.",
          "The affine formulas are written out in the harness.", "3 C09"),
  "C11": ("exploration", E1 + ": token soups, unicode strings and 1/2-edit neighbourhoods of seeds; no panic/abort/hang, located errors; both build profiles and the real binary on a stride",
-         "All token sequences <=3 (4) over 46 tokens (incl. values that are zero only after a unit conversion) x joiner patterns, all unicode strings <=4 (5) over 30 code points, every 1-edit (thorough 2-edit) of 66 seeds, a repetition/nesting ladder (k up to 257) over 1..2 structural tokens, in release and debug-assertion builds; each result must display or be an error with an in-bounds char-boundary range that the diagnostic renderer accepts; worker processes attribute aborts and hangs to the input.",
+         "All token sequences <=3 (4) over 46 tokens (incl. values that are zero only after a unit conversion) x joiner patterns, all unicode strings <=4 (5) over 30 code points, every 1-edit (thorough 2-edit) of 66 seeds, a repetition/nesting ladder (k up to 257) over 1..2 structural tokens, 14 single-error queries under leading/trailing blanks through the real binary (what it underlines must be the text the library's range selects), in release and debug-assertion builds; each result must display or be an error with an in-bounds char-boundary range that the diagnostic renderer accepts; worker processes attribute aborts and hangs to the input.",
          "Inputs outside the statement's numeric bounds (>3-digit exponents, >2-digit powers) or with possibly astronomically large values are counted and skipped.", "3 C11"),
  "C12": ("exploration", E1 + ": all strings up to length 5 (thorough 6) over a 40-symbol alphabet through lexer and parser",
          "105 M (thorough 4.2 G) strings, every sequence of up to 6 whole tokens over a 12-token alphabet (3 M), every string up to length 3 parsed right after a unit string with trailing content went through str::parse::<Compound> on the same thread, and every sequence of 1..3 tokens repeated k times / nested k deep in ten wrappers for k up to 257: tokens non-empty, on char boundaries, tile the input; the tree's token leaves equal the token stream.",
@@ -51,10 +51,10 @@ CHECKS = {
          "Every assignment of documents to indexing workers (symmetry-reduced), every order of equally sized segments, merge timing and merge input order is enumerated on the real Db::in_memory()/Db::open() over reduced data sets of shipped constants that tie for the ambiguous probes; every session history of up to 2 (thorough 4) sessions over {in-memory build, on-disk session, on-disk session over other data} is explored the same way (a disk session after another is a reopen or a rebuild); every session of every execution must answer the probe set like the reference execution (and own-word probes must find their constant); on-disk layouts are read back from the real index; the full shipped data runs under corner schedules, each followed by every single deviation at every tie-order and merge-timing point (so a build that leaves several equal-sized segments is explored in every segment order). Probes: every constant's full word set, every distinct single word of the data set, word prefixes of length 1..3 and ordered pairs of word initials; every probe is asked twice per session (one database answering differently is a violation in itself).",
          "Layout depends on scheduling only through the four gated seams (argued in DESIGN 2.6, cross-checked by reading real on-disk layouts back); nondeterminism that does not pass through those seams is not enumerated, only observed through the run's independent builds and double-asked probes; vendored tantivy = registry 0.19.2 + vendor/tantivy-gates.patch (checked in setup); hook H1 (asset directory seam) supplies the reduced data sets.", "3 C14"),
  "C15": ("fault_enumeration", "exhaustive crash-point (and torn-write) enumeration of the real start-up under an LD_PRELOAD fault injector, crossed with prior directory states and followed by crash-free starts",
-         "The real Db::open() is killed before every one of its file-system mutations (every point; thorough also torn writes and two-crash histories: every pair of crash points from the absent prior) from each prior directory state; after each crash: meta.json current => index complete (checked with tantivy independently), and two crash-free starts must answer the probe set exactly like a fresh in-memory database. Every listed prior state (absent, other major version, next patch version / build suffix over an index with other content, an index in another build's layout under seven near-current version strings, other data, missing/truncated/garbage metadata incl. every proper prefix, 18 well-formed JSON documents of the wrong shape, missing index directory) is also started crash-free.",
+         "The real Db::open() is killed before every one of its file-system mutations (every point; thorough also torn writes and two-crash histories: every pair of crash points from the absent prior) from each prior directory state; after each crash: meta.json current => index complete (checked with tantivy independently), and two crash-free starts must answer the probe set exactly like a fresh in-memory database. Every listed prior state (absent, other major version, next patch version / build suffix over an index with other content, an index in another build's layout under seven near-current version strings, other data, missing/truncated/garbage (text and non-UTF-8) metadata incl. every proper prefix, 18 well-formed JSON documents of the wrong shape, missing index directory) is also started crash-free.",
          "Process-crash model (no power-loss reordering); tantivy's raw-syscall renames are bracketed by interposed calls; the crashed directory is the replay artefact.", "3 C15"),
  "C16": ("exploration", E1 + ": every shipped constant x every permutation of its words",
-         "All 878 constants decoded independently; every typeable permutation of their words is looked up with descriptions on; the returned constant must carry the words and its value and unit must equal those stored in the data file (read without the subject's types).",
+         "All 878 constants decoded independently; every typeable permutation of their words is looked up with descriptions on; the returned constant must carry the words, its value, unit and source id must equal those stored in the data file (read without the subject's types), and the source must resolve to the record stored under that id.",
          "One in-memory Db per worker; the returned constant is identified among the stored ones by its set of words and its description.", "3 C16"),
  "C17": ("exploration", E1 + ": all derived units x powers x prefixes, compounds, rational grid, every shipped constant through encode/decode",
          "CBOR (and JSON for rationals) round trips over a rational grid (thorough 2000/200), unit triples over a 10- (thorough 40-) unit core, incl. machine-word boundaries 2^k-1, 2^k, 2^k+1 (k=7..128) as numerator and denominator and compounds as the parser builds them from every prefix spelling x 16 unit words x 5 shapes; long decimals (10^k, 10^k+-1, 2^k, 3^k, k! at 14 lengths from 8 to 200 digits over 9 denominators, both signs); every shipped constant decoded directly and through the tool's own loader (looked up by its own words: stored value, unit, description, source); ids pairwise distinct and equal to the documented ids pinned in the harness; decoded units are the same statics.",
